@@ -41,12 +41,17 @@ def gen_world(rng, i, tier):
             w["ep"] = "readFile"
         else:
             lw["read"]["delim"], lw["read"]["comment"] = D, C
+            if lw["cfg"].get("cwd"):
+                w["cfg"]["cwd"] = lw["cfg"]["cwd"]
             w["layered"] = {"read": lw["read"], "nodes": lw["nodes"]}
             w["member"] = rng.randrange(len(model["consulted"]))
             if lw["read"]["ep"] == "readDirs":
                 w["ep"] = rng.pick(["readDirs", "readDirsCb", "readDirsHistory", "readDirsHistoryCb"])
             else:
                 w["ep"] = rng.pick(["readConfig", "readConfigCb"])
+                # the parse options must not change which error is reported (JOIN_SAME_ENTRIES works on the
+                # entries after the file was read)
+                lw["read"]["opts"]["extra"] = rng.pick([[], [], ["JOIN_SAME_ENTRIES=1"], ["JOIN_SAME_ENTRIES=1"]])
     w["stale"] = rng.pick([[], ["good"], ["bad"], ["good", "bad"], ["bad", "good"]])
     return w
 
@@ -181,7 +186,10 @@ def check(world, plans, results):
         prevk = world["lines"][ps[0] - 1][0] if ps and ps[0] > 0 else "start"
         posc = "first" if ps[0] == 0 else ("last" if ps[0] == len(world["lines"]) else "middle")
         role = "single" if world["mode"] == "single" else ("main" if world["member"] == 0 and gen.model_of(world["layered"])["main"] else "dropin")
-        sigs.add((grammar.dclass(world["D"]), kind, prevk, posc, world["ep"], role, len(ps)))
+        opt = "+".join(world.get("layered", {}).get("read", {}).get("opts", {}).get("extra", [])) if world["mode"] == "tree" else ""
+        sigs.add((grammar.dclass(world["D"]), kind, prevk, posc, world["ep"], role, len(ps), opt))
+        if opt:
+            v.probe("with_option_" + opt)
         if world["mode"] == "tree":
             m = gen.model_of(world["layered"])
             if tpath in m["masked"]:
